@@ -47,7 +47,7 @@ def stored_files(ctx):
         from checks import live_common as lc
         lc.crash_check(ctx, r.returncode, r.stderr, "live-attach-overlap")
     judged = [e for e in oev if e.get("uploaded")]
-    if len(judged) < 15:
+    if len(judged) < 15 and not ctx.viol:
         raise vlib.ToolFailure("live-attach-overlap judged only %d uploads" % len(judged))
     for e in judged:
         if not e["stored"]:
